@@ -15,6 +15,7 @@ WTARGET = os.path.join(R.CACHE, 'witness-target')
 
 # (unit regex, fn regex) -> witness cases to try, in order
 CASES = [
+    (r'(k\.)?rcl.*', r'.*', ['rcl']),
     (r'ef\.builder', r'(push|push_unchecked|build)', ['ef_builder', 'ef_seq']),
     (r'ef\.builder', r'.*', ['ef_seq', 'ef_builder']),
     (r'ef\.iter', r'.*', ['ef_seq']),
